@@ -805,3 +805,36 @@ impl<C: Cfg> World<C> {
         }
     }
 }
+
+impl<C: Cfg> World<C> {
+    /// Move the vector value(s) to another address. how 0: the vectors of slots `v` and `w` trade
+    /// places (bitwise swap of the two values); how 1: the vector of slot `v` travels through a
+    /// heap box and back. A vector owns its state by value, so nothing observable may change
+    /// (inline storage travels with the value; heap storage stays where it is).
+    pub fn do_move(&mut self, v: usize, w: usize, how: u32, tr: &mut String) {
+        use std::fmt::Write;
+        if self.vecs[v].is_none() || (how == 0 && (self.vecs[w].is_none() || v == w)) {
+            let _ = write!(tr, "move(skipped)");
+            return;
+        }
+        self.nontrivial = true;
+        if how == 0 {
+            let _ = write!(tr, "move(v{} <-> v{})", v, w);
+            let _s = crate::alloc::suspend();
+            self.vecs.swap(v, w);
+            self.model.swap(v, w);
+            self.flav.swap(v, w);
+            self.prev_len.swap(v, w);
+            self.class("move:swap-places");
+        } else {
+            let _ = write!(tr, "move(v{} -> Box -> v{})", v, v);
+            let _s = crate::alloc::suspend();
+            let taken = self.vecs[v].take().unwrap();
+            let boxed = std::hint::black_box(Box::new(taken));
+            // occupy the old place meanwhile, so that a stale self-pointer does not find its old bytes
+            let back: V<C> = *boxed;
+            self.vecs[v] = Some(std::hint::black_box(back));
+            self.class("move:through-box");
+        }
+    }
+}
